@@ -14,7 +14,7 @@ cleanup() { git -C /repo worktree remove --force "$D/repo" 2>/dev/null; rm -rf "
 trap cleanup EXIT INT TERM
 git -C "$D/repo" apply "$SRC/change$I.diff" || { echo "PATCH DOES NOT APPLY"; exit 2; }
 stat=$(git -C "$D/repo" diff --stat | tail -1)
-( cd "$D/repo" && /venv/bin/python -m pytest -q -p no:cacheprovider -n 6 > "$D/pytest.log" 2>&1 ); trc=$?
+( cd "$D/repo" && /venv/bin/python -m pytest -q -p no:cacheprovider -n 6 -o addopts="" > "$D/pytest.log" 2>&1 ); trc=$?
 tests=$(grep -E "passed|failed" "$D/pytest.log" | tail -1)
 /venv/bin/python "$SRC/demo$I.py" /repo > "$D/demo_orig.log" 2>&1; d0=$?
 /venv/bin/python "$SRC/demo$I.py" "$D/repo" > "$D/demo_mut.log" 2>&1; d1=$?
